@@ -52,6 +52,7 @@ type fakeCln struct {
 	// per-case observation
 	sendpays []map[string]json.RawMessage
 	invoices []map[string]json.RawMessage // params of `invoice` calls (psh invoice)
+	peerChans []map[string]interface{}    // answer of `listpeerchannels` (psh scidres)
 	ln       net.Listener
 }
 
@@ -98,6 +99,8 @@ func (f *fakeCln) serve(conn net.Conn) {
 		case "sendpay":
 			f.sendpays = append(f.sendpays, req.Params)
 			result = map[string]interface{}{"message": "Monitor status with listpays or waitsendpay", "status": "pending", "id": 1}
+		case "listpeerchannels":
+			result = map[string]interface{}{"channels": f.peerChans}
 		case "waitsendpay":
 			result = map[string]interface{}{"status": "complete", "payment_preimage": strings.Repeat("ab", 32), "id": 1}
 		default:
